@@ -1,6 +1,6 @@
 """Generator for the `flow_send` component (send side of StreamsState vs coq/Model/FlowSend.v)."""
 RULE = ("case = [new(side, remote limits, send window)] [set_params p0] early application ops "
-        "(0-RTT phase: open/write/finish/reset/transmit/loss/set_send_window/poll) "
+        "(0-RTT phase: open/write/finish/reset/transmit/Retry/set_send_window/poll) "
         "[acceptance: set_params p1 >= p0 | rejection: zero_rtt_rejected + set_params p1 | nothing] "
         "then application ops interleaved with MAX_DATA / MAX_STREAM_DATA / MAX_STREAMS / STOP_SENDING frames "
         "(lower, equal, higher, boundary values; for open, unopened, finished, reset, remote and junk ids), "
@@ -68,6 +68,9 @@ class Ledger:
         self.dirty = set()
         self.dead = set()
         self.next_ack = 0
+        if not hasattr(self, "nr"):
+            self.nr = 0      # static next_remote (Bi): raised by MAX_STREAM_DATA on peer-initiated ids
+            self.rep = 0     # accepts that certainly succeeded
 
     def params(self, p):
         self.par = list(p)
@@ -109,8 +112,22 @@ class Ledger:
     def remote_ids(self):
         return [(i << 2) | (1 - self.side) for i in range(self.mrb)]
 
+    def accepted_ids(self):
+        return [(i << 2) | (1 - self.side) for i in range(min(self.rep, self.mrb))]
 
-def pick_id(rng, L, local_only=False):
+    def app_safe(self, sid):
+        """The application never names a peer-initiated stream that exists but was not accepted."""
+        if (sid & 1) != self.side and not (sid >> 1) & 1 and self.rep <= (sid >> 2) < self.mrb:
+            return ((self.mrb + (sid >> 2)) << 2) | (sid & 3)
+        return sid
+
+
+def pick_id(rng, L, local_only=False, app=False):
+    sid = pick_id0(rng, L, local_only, app)
+    return L.app_safe(sid) if app else sid
+
+
+def pick_id0(rng, L, local_only, app):
     loc = L.live_ids() if rng.chance(9, 10) else L.local_ids()
     k = rng.below(20)
     if local_only:
@@ -120,7 +137,7 @@ def pick_id(rng, L, local_only=False):
         return ((L.opened[d] + rng.below(2)) << 2) | (d << 1) | L.side
     if loc and k < 12:
         return rng.choice(loc)
-    rem = L.remote_ids()
+    rem = [i for i in (L.accepted_ids() if app else L.remote_ids()) if app is False or i not in L.dead or rng.chance(1, 5)]
     if rem and k < 16:
         return rng.choice(rem)
     if k < 17:      # unopened local / beyond-limit remote
@@ -147,6 +164,10 @@ def write_size(rng, L, sid):
 
 def app_op(rng, L, early):
     k = rng.below(100)
+    if getattr(L, "owe_observe", False):
+        L.owe_observe = False
+        if rng.chance(2, 3):
+            return [19]
     if not L.local_ids() and max(L.max_streams) > 0 and rng.chance(3, 5):
         k = 0
     if k < 12:
@@ -157,18 +178,18 @@ def app_op(rng, L, early):
             L.opened[d] += 1
         return [2, d]
     if k < 58:
-        sid = pick_id(rng, L, local_only=early)
+        sid = pick_id(rng, L, local_only=early, app=True)
         n = write_size(rng, L, sid)
         if sid in L.local_ids() or sid in L.remote_ids():
             L.wrote(sid, n)
         return [3, sid, n]
     if k < 63:
-        sid = pick_id(rng, L, local_only=early)
+        sid = pick_id(rng, L, local_only=early, app=True)
         L.dirty.add(sid)
         L.dead.add(sid)
         return [4, sid]
     if k < 66:
-        sid = pick_id(rng, L, local_only=early)
+        sid = pick_id(rng, L, local_only=early, app=True)
         L.dead.add(sid)
         return [5, sid]
     if k < 84:
@@ -179,6 +200,13 @@ def app_op(rng, L, early):
                 L.dirty = set()
         return [9, mb]
     if k < 88:
+        if early:
+            # no loss can be detected before the handshake; a client may receive a Retry instead
+            if L.side == 0:
+                L.next_ack = L.frames
+                L.owe_observe = True
+                return [21]
+            return [15]
         return [11, L.ack_index(rng)]
     if k < 91:
         w = rng.choice([0, 1, 100, 1000, 5000, 1 << 20, B62, (1 << 64) - 1])
@@ -206,6 +234,8 @@ def frame_op(rng, L):
         v = min(v, B62)
         if sid in L.local_ids() or sid in L.remote_ids():
             L.lim[sid] = max(L.lim.get(sid, 0), v)
+        if (sid & 1) != L.side and not (sid >> 1) & 1:
+            L.nr = max(L.nr, (sid >> 2) + 1)
         return [7, sid, v]
     if k < 62:
         d = rng.below(2)
@@ -222,7 +252,50 @@ def frame_op(rng, L):
         return [16, sid, rng.below(100)]
     if k < 92:
         return [17, pick_id(rng, L)]
-    return [18, rng.below(2)]
+    d = 0 if rng.chance(3, 4) else 1
+    if d == 0 and L.rep < L.nr:
+        L.rep += 1
+    return [18, d]
+
+
+def remote_stream(rng, L):
+    """The peer opens its next bidirectional stream (MAX_STREAM_DATA on it), the application accepts it and
+    writes around the limit that applies to peer-initiated streams (initial_max_stream_data_bidi_local)."""
+    if L.mrb == 0 or L.rep >= L.mrb or L.nr > L.rep:
+        return []
+    rid = (L.rep << 2) | (1 - L.side)
+    cur = L.stream_lim(rid)
+    v = rng.choice([0, cur, max(0, cur - 1), cur + 1, cur + rng.choice([10, 100])])
+    L.lim[rid] = max(L.lim.get(rid, 0), v)
+    L.nr = L.rep + 1
+    L.rep += 1
+    ops = [[7, rid, v], [18, 0]]
+    for _ in range(rng.range(1, 3)):
+        n = write_size(rng, L, rid)
+        L.wrote(rid, n)
+        ops.append([3, rid, n])
+    return ops
+
+
+def lone_fin(rng, L):
+    """An early stream finished without data whose FIN was sent, then a Retry (client only)."""
+    d = rng.below(2)
+    if L.side != 0 or L.opened[d] >= L.max_streams[d]:
+        return []
+    sid = (L.opened[d] << 2) | (d << 1)
+    L.opened[d] += 1
+    L.dead.add(sid)
+    ops = [[2, d]]
+    if rng.chance(1, 3):
+        ops.append(app_op(rng, L, True))
+    ops += [[4, sid], [9, rng.choice([100, 1200, 1200, 3000])]]
+    if rng.chance(1, 3):
+        ops.append(app_op(rng, L, True))
+    ops += [[21], [19]]
+    L.next_ack = L.frames = L.frames + 2
+    if rng.chance(1, 2):
+        ops += [[9, 1200], [19]]
+    return ops
 
 
 def gen_wf(rng):
@@ -240,6 +313,8 @@ def gen_wf(rng):
     if mode >= 2:
         for _ in range(rng.range(0, 14)):
             ops.append(app_op(rng, L, True))
+            if rng.chance(1, 30):
+                ops += lone_fin(rng, L)
         if mode < 4:
             p1 = pick_params(rng, at_least=p0)
             ops.append([1] + p1)
@@ -251,7 +326,9 @@ def gen_wf(rng):
             L.restart()
             L.params(p1)
     for _ in range(rng.range(6, 40)):
-        if rng.chance(3, 5):
+        if rng.chance(1, 10):
+            ops += remote_stream(rng, L)
+        elif rng.chance(3, 5):
             ops.append(app_op(rng, L, False))
         else:
             ops.append(frame_op(rng, L))
@@ -277,7 +354,7 @@ def gen_wild(rng):
             ops.append([14])
             L.opened = [0, 0]
         elif k < 4:
-            ops.append(rng.choice([[6, 1 << 62], [16, pick_id(rng, L), 1 << 62], [12], [10, -1], [2, 7], [8, 3, 2]]))
+            ops.append(rng.choice([[6, 1 << 62], [16, pick_id(rng, L), 1 << 62], [12], [10, -1], [2, 7], [8, 3, 2], [21], [21]]))
         elif k < 12:
             ops.append(app_op(rng, L, False))
         else:
@@ -307,7 +384,8 @@ def nontrivial(case, outs):
 def stats(cases, outs):
     d = {"ops": {}, "write": {"full": 0, "cut": 0, "blocked": 0, "stopped": 0, "closed": 0},
          "open": {"some": 0, "none": 0}, "msd": {}, "max_streams": {}, "frames_sent": 0, "acks": 0, "acks_dead": 0,
-         "lost": 0, "panics": 0, "rejections": 0, "events": {}, "len": {"min": 10 ** 9, "max": 0}}
+         "lost": 0, "panics": 0, "rejections": 0, "events": {}, "len": {"min": 10 ** 9, "max": 0},
+         "writes_accepted_on_peer_initiated": 0, "accepts": 0}
     for c, o in zip(cases, outs):
         d["len"]["min"] = min(d["len"]["min"], len(c))
         d["len"]["max"] = max(d["len"]["max"], len(c))
@@ -316,6 +394,10 @@ def stats(cases, outs):
             continue
         for op, r in zip(c, o):
             d["ops"][str(op[0])] = d["ops"].get(str(op[0]), 0) + 1
+            if op[0] == 3 and r[0] == 0 and r[1] > 0 and c and c[0][0] == 0 and (op[1] & 1) != (1 if c[0][1] else 0):
+                d["writes_accepted_on_peer_initiated"] += 1
+            if op[0] == 18 and r[0] == 0:
+                d["accepts"] += 1
             if op[0] == 3:
                 key = {0: "full", 1: "blocked", 2: "stopped", 3: "closed"}.get(r[0], "closed")
                 if r[0] == 0 and r[1] < op[2]:
